@@ -309,21 +309,29 @@ Proof.
     eapply parse_all_threads. exact A.
 Qed.
 
-Theorem model_meets_spec_wire : forall l : list tok, parse_case l <> None -> case_oracle_fresh l ->
-  run_spec l (run_model l) = [].
+Lemma model_meets_spec_wire_case : forall l : list tok, parse_case l <> None -> case_oracle_fresh l ->
+  run_spec_case l (run_model_case l) = [].
 Proof.
-  intros l H F. unfold run_spec, run_model, case_oracle_fresh in *. destruct (parse_case l) as [[[cf n] ops]|] eqn:P; [|contradiction].
+  intros l H F. unfold run_spec_case, run_model_case, case_oracle_fresh in *. destruct (parse_case l) as [[[cf n] ops]|] eqn:P; [|contradiction].
   rewrite observation_roundtrip.
   destruct (parsed_cfg l cf n ops P) as (e & g & cs & E).
   apply model_meets_spec_oracles; [| exact (parsed_threads l cf n ops P) | exact F].
   subst cf. destruct g; [apply cfg_of_ok | apply cfg_of_default_ok].
 Qed.
 
+(* the entry points of the extracted checker: program cases as above; an independence-probe line is answered PURE *)
+Theorem model_meets_spec_wire : forall l : list tok, parse_case l <> None \/ is_purity l = true -> case_oracle_fresh l ->
+  run_spec l (run_model l) = [].
+Proof.
+  intros l H F. unfold run_spec, run_model. destruct (is_purity l) eqn:P; [reflexivity|].
+  apply model_meets_spec_wire_case; [|exact F]. destruct H as [H|H]; [exact H | discriminate].
+Qed.
+
 (* with a scripted generator the assumption is empty *)
 Corollary model_meets_spec_wire_scripted : forall l cf n ops, parse_case l = Some (cf, n, ops) -> cf_defgen cf = false ->
   run_spec l (run_model l) = [].
 Proof.
-  intros l cf n ops P D. apply model_meets_spec_wire; [congruence|]. unfold case_oracle_fresh. rewrite P.
+  intros l cf n ops P D. apply model_meets_spec_wire; [left; congruence|]. unfold case_oracle_fresh. rewrite P.
   apply oracle_fresh_scripted. exact D.
 Qed.
 
